@@ -42,6 +42,11 @@ def run_short_writes(ctx):
             cfg = {"keys": [b"\x0a\x0b\x0c\x0d"], "acc": comp + [1000]}
             sessions.append((cfg, [], [f"send:2:{bytes(range(1, plen + 1)).hex() or '-'}"]))
             meta.append((plen, comp))
+            if len(comp) > 1 and (plen <= 1 or rnd.random() < 0.25):
+                # the same send on an object equipped with a dispatcher (as WebSocketApp's connections are)
+                cfg = dict(cfg, dispatcher=rnd.choice(["plain", "ssl"]))
+                sessions.append((cfg, [], [f"send:2:{bytes(range(1, plen + 1)).hex() or '-'}"]))
+                meta.append((plen, comp))
     for plen in (125, 126, 1000, 65535, 65536, 100000):
         for _ in range(12 if ctx.thorough() else 4):
             comp = [rnd.choice([1, 2, 7, 100, 1460, 4096, 65536]) for _ in range(rnd.randint(1, 6))]
@@ -49,6 +54,8 @@ def run_short_writes(ctx):
                 comp = [max(c, 1000) for c in comp]
             cfg = {"keys": [b"\xfa\xfb\xfc\xfd"], "acc": comp}
             sessions.append((cfg, [], [f"send:2:gen:{plen}:{plen % 97}"]))
+            meta.append((plen, comp))
+            sessions.append((dict(cfg, dispatcher=rnd.choice(["plain", "ssl"])), [], [f"send:2:gen:{plen}:{plen % 97}"]))
             meta.append((plen, comp))
     res = rx.run_sessions(ctx, "session:short-writes", sessions)
     specs = rx.spec_decode_all([bytes(r[3].sent) for r in res])
@@ -163,11 +170,12 @@ def receiver_run(stream_chunks, nmsgs, nthreads, schedule, share):
     for i in range(nthreads):
         b.spawn(i, (lambda i=i: worker(i, share[i])))
     eff = b.run(schedule)
-    return got, eff, bytes(sock.sent)
+    return got, eff, bytes(sock.sent), list(ws.readlock.log)
 
 
 def run_receivers(ctx):
     rnd = ctx.rng("receivers")
+    cosim = []
     n = 2400 if ctx.thorough() else 450
     for it in range(n):
         nthreads = rnd.randint(2, 3)
@@ -194,7 +202,26 @@ def run_receivers(ctx):
             # one preemption: thread a runs k steps, then thread b runs to completion, then the rest
             a, b_ = rnd.sample(range(nthreads), 2)
             sched = [a] * rnd.randint(0, 40) + [b_] * 400
-        got, eff, wire = receiver_run(chunks, nmsgs, nthreads, sched, share)
+        got, eff, wire, acq = receiver_run(chunks, nmsgs, nthreads, sched, share)
+        # (C) the Lean interleaving model of the receivers, driven by the OBSERVED order of read-lock acquisitions:
+        # task k = the k-th recv() call to get the lock; other tasks' entries inside its run are blocked no-ops
+        L = 2 * len(frames) + 2
+        msched = []
+        for k in range(len(acq)):
+            blk = [k] * L
+            for _ in range(rnd.randint(0, 4)):
+                blk.insert(rnd.randint(1, 2), rnd.choice([j for j in range(len(acq)) if j != k] or [k]))   # another task, while k certainly still holds the lock
+            msched += blk
+        mline = ("m-threads-recv " + ".".join(f"{f.fin}:{f.op}:{f.data.hex() or '-'}" for f in frames) + " "
+                 + (".".join(map(str, msched)) or "-"))
+        seen_calls = {i: 0 for i in range(nthreads)}
+        expect = []
+        for k, t in enumerate(acq):
+            j = seen_calls[t]
+            seen_calls[t] += 1
+            x = got[t][j] if j < len(got[t]) else "X:missing"
+            expect.append(f"{k}:2:{common.summarize(x)}" if isinstance(x, (bytes, bytearray)) else f"{k}:{x}")
+        cosim.append((mline, ",".join(expect) + f"|0|-|1", {"frames": [f.desc() for f in frames], "acquisitions": acq, "schedule": eff[:120]}))
         switches = sum(1 for a, b_ in zip(eff, eff[1:]) if a != b_)
         ctx.case(key=("rx", it, tuple(eff[:40])), nontrivial=switches > 1,
                  cls=f"receivers:threads={nthreads}:msgs={nmsgs}:fragmented={int(len(frames) > nmsgs)}",
@@ -211,16 +238,114 @@ def run_receivers(ctx):
             idx = [msgs.index(x) for x in v]
             if idx != sorted(idx):
                 ctx.violate("each-message-intact-to-exactly-one-receiver", "per-thread-order", inp, "stream order", str(idx), size=len(eff))
+    mo = common.run_driver_parallel([c[0] for c in cosim])
+    for (mline, expect, inp), m in zip(cosim, mo):
+        ctx.traces_vs_impl += 1
+        if m != expect:
+            ctx.diverge("threads:receivers", dict(inp, op=mline[:300]), m[:300], expect[:300])
+
+
+def mixed_run(stream_chunks, payloads, keys, schedule, accepts):
+    """thread 0 receives (and so answers the pings in the stream); threads 1.. send."""
+    import websocket
+    b = Baton()
+    ws = websocket.WebSocket()
+    sock = simnet.SimSocket(stream_chunks, accepts=accepts)
+    ws.sock = BatonSocket(sock, b)
+    ws.connected = True
+    ws.lock = SimLock(b, "lock")
+    ws.readlock = SimLock(b, "readlock")
+    ws.frame_buffer.lock = SimLock(b, "framelock")
+    klist = list(keys)
+    ws.set_mask_key(lambda n: klist.pop(0))
+    drawn = []
+    orig = ws.get_mask_key
+
+    def rec_key(n):
+        k = orig(n)
+        drawn.append(k)
+        return k
+    ws.get_mask_key = rec_key
+    got = []
+
+    def reader():
+        try:
+            got.append(ws.recv())
+        except Exception as e:  # noqa
+            got.append("X:" + common.canon_exc(e))
+    b.spawn(0, reader)
+    for i, p in enumerate(payloads):
+        b.spawn(i + 1, (lambda p=p: ws.send_binary(p)))
+    eff = b.run(schedule, prestart=False)
+    return bytes(sock.sent), eff, got, drawn
+
+
+def run_mixed(ctx):
+    """a receiver answering pings while other threads send under short writes: the pong is a send like any other."""
+    rnd = ctx.rng("mixed")
+    n = 1200 if ctx.thorough() else 260
+    for it in range(n):
+        ns = rnd.randint(1, 2)
+        payloads = [rx.payload(rnd, rnd.choice([1, 5, 20, 126, 300]), "bin") for _ in range(ns)]
+        pings = [bytes([0x70 + j]) * rnd.choice([0, 1, 30, 125]) for j in range(rnd.randint(1, 3))]
+        frames = [F(9, p) for p in pings] + [F(2, b"M")]
+        stream = b"".join(f.enc() for f in frames)
+        chunks = [("chunk", c) for c in rx.partitions(stream, rnd, 1)[-1]]
+        acc = [rnd.choice([1, 2, 3, 7, 50]) for _ in range(rnd.randint(1, 4))]
+        keys = [bytes([0x10 + i, 0x20 + i, 0x30 + i, 0x40 + i]) for i in range(ns + len(pings))]
+        if it % 2 == 0:
+            sched = [rnd.randrange(ns + 1) for _ in range(rnd.randint(0, 200))]
+        else:
+            sched = []
+            while len(sched) < 200:
+                sched += [rnd.randrange(ns + 1)] * rnd.randint(1, 12)
+        wire, eff, got, drawn = mixed_run(chunks, payloads, keys, sched, acc)
+        switches = sum(1 for a, b_ in zip(eff, eff[1:]) if a != b_)
+        ctx.case(key=("mixed", it), nontrivial=switches > 1, cls=f"mixed:senders={ns}:pings={len(pings)}",
+                 sample={"pings": [len(p) for p in pings], "payload_lens": [len(p) for p in payloads], "accepts": acc, "schedule": eff[:30]}
+                 if len(ctx.samples) < 11 and switches > 6 else None)
+        inp = {"op": "threads-mixed", "pings": [p.hex()[:20] for p in pings], "payloads": [p.hex()[:40] for p in payloads],
+               "accepts": acc, "schedule": eff[:200]}
+        # whole frames: each sender's frame and one pong per ping, every one under one of the drawn keys
+        rest, nframes, ok = wire, 0, True
+        want = sorted([(2, p) for p in payloads] + [(10, p) for p in pings])
+        seen = []
+        while rest:
+            if len(rest) < 2:
+                ok = False
+                break
+            b0, b1 = rest[0], rest[1]
+            ln = b1 & 0x7F
+            off = 2
+            if ln == 126:
+                ln = int.from_bytes(rest[2:4], "big")
+                off = 4
+            if not (b1 & 0x80) or len(rest) < off + 4 + ln:
+                ok = False
+                break
+            key = rest[off:off + 4]
+            body = bytes(x ^ key[i % 4] for i, x in enumerate(rest[off + 4:off + 4 + ln]))
+            seen.append((b0 & 0x0F, body))
+            if b0 & 0x70 or not (b0 & 0x80):
+                ok = False
+                break
+            rest = rest[off + 4 + ln:]
+        if not ok or sorted(seen) != want:
+            ctx.violate("whole-frames-in-some-serial-order", "pong-interleaved-with-a-send", inp,
+                        "the senders' frames and one pong per ping, each whole", wire.hex()[:240], size=len(eff) + len(wire))
+        elif got != [b"M"]:
+            ctx.violate("each-message-intact-to-exactly-one-receiver", "receiver-disturbed-by-senders", inp, "[b'M']", str(got)[:120], size=len(eff))
 
 
 def run(ctx):
     ctx.rule = ("(a) every composition of the frame length as an accept pattern for frames of 6..10 bytes, sampled patterns for 125..100000 "
                 "bytes; (b) 2 threads x every schedule of length 9 (11), 3 threads x every schedule of length 6 (8), random 2-4 threads with "
                 "random payloads/patterns/schedules, co-simulated with the Lean interleaving model; (c) 2-3 receiver threads, fragmented "
-                "messages with control frames, random schedules. non-trivial = more than one piece / more than one context switch")
+                "messages with control frames, random schedules, the Lean receivers model driven by the observed lock-acquisition order; (d) one receiver answering 1-3 pings while 1-2 threads send under short writes; (a') the short-write sends again on an object equipped with a dispatcher. non-trivial = more than one piece / more than one context switch")
     run_short_writes(ctx)
     run_senders(ctx)
     run_receivers(ctx)
+    run_mixed(ctx)
 
 
 def search(ctx):
